@@ -188,40 +188,29 @@ impl<'a> Tokenizer<'a> {
     ///
     /// Returned errors:
     fn read_nondecimal_data(&mut self, radix: u8) -> Result<Token<'a>, ErrorCode> {
-        let options = lexical_core::ParseIntegerOptions::new();
-        let (n, len) = match radix {
-            b'H' | b'h' => {
-                const FORMAT: u128 = lexical_core::NumberFormatBuilder::from_radix(16);
-                lexical_core::parse_partial_with_options::<u64, FORMAT>(
-                    self.chars.as_slice(),
-                    &options,
-                )
-            }
-            b'Q' | b'q' => {
-                const FORMAT: u128 = lexical_core::NumberFormatBuilder::from_radix(8);
-                lexical_core::parse_partial_with_options::<u64, FORMAT>(
-                    self.chars.as_slice(),
-                    &options,
-                )
-            }
-            b'B' | b'b' => {
-                const FORMAT: u128 = lexical_core::NumberFormatBuilder::from_radix(2);
-                lexical_core::parse_partial_with_options::<u64, FORMAT>(
-                    self.chars.as_slice(),
-                    &options,
-                )
-            }
+        let radix = match radix {
+            b'H' | b'h' => 16u8,
+            b'Q' | b'q' => 8u8,
+            b'B' | b'b' => 2u8,
             _ => return Err(ErrorCode::NumericDataError),
+        };
+        // Accumulate with overflow checks, a literal that does not fit is out of range
+        let mut n = 0u64;
+        let mut len = 0usize;
+        while let Some(digit) = self
+            .chars
+            .clone()
+            .next()
+            .and_then(|c| util::ascii_to_digit(*c, radix))
+        {
+            n = n
+                .checked_mul(radix as u64)
+                .and_then(|n| n.checked_add(digit as u64))
+                .ok_or(ErrorCode::DataOutOfRange)?;
+            self.chars.next();
+            len += 1;
         }
-        .map_err(|e| match e {
-            lexical_core::Error::InvalidDigit(_) => ErrorCode::InvalidCharacterInNumber,
-            lexical_core::Error::Overflow(_) | lexical_core::Error::Underflow(_) => {
-                ErrorCode::DataOutOfRange
-            }
-            _ => ErrorCode::NumericDataError,
-        })?;
         if len > 0 {
-            self.chars.nth(len - 1).unwrap();
             let ret = Token::NonDecimalNumericProgramData(n);
             // Skip to next separator
             self.skip_ws_to_separator(ErrorCode::SuffixNotAllowed)?;
